@@ -53,6 +53,18 @@ PROPS["C13"] = {
     ],
     "assumptions": ["attempt times are non-decreasing (monotonic clock)", "1 <= limit <= 2^24 for the f32 implementation (above: KNOWN-FINDING)"],
 }
+PROPS["C18"] = {
+    "runner": "c18",
+    "design_ref": "DESIGN.md §6 C18",
+    "technique": "Lean 4 theorems: chain fold = declarative eligibility spec (induction over the filter list), any = head, player_fill = max-below-capacity (fold invariant), soundness and completeness corollaries; differential correspondence against adapters built from configuration values",
+    "level_text": "Machine-checked proofs for every filter chain, player, host verdict vector and target list: the sequential composition of the built-in filter adapters returns exactly the declaratively eligible targets in discovery order; the default strategy returns their head; player_fill returns an eligible target strictly below capacity such that no eligible target below capacity is fuller, and none iff there is none. Regex verdicts are arbitrary bits in the theorems. The executable model is compared with DynFilterAdapters/DynStrategyAdapter built from deserialised configuration values (aliases included) with verdict bits recorded from the real regex engine; a naive evaluator in the harness judges the property.",
+    "level_note": "Trusted: Lean kernel; regex engine and UUID parsing are oracles (recorded verdicts); serde deserialisation of configuration; HashMap metadata modelled as an association list with unique keys; u32 parsing re-modelled (parseU32) and compared differentially.",
+    "lean_modules": ["Passage.Props.C18"],
+    "cases": {"quick": 5000, "thorough": 300000},
+    "rule": "chains of 0..6 filters of all three kinds with/without host-name scope, all six rule operations over a small key/value alphabet (missing, non-numeric, signed, overflowing counts), allow/block lists by name, pattern and UUID (hyphenated and simple), both strategies with capacities 0..u32::MAX, 0..7 targets, both canonical and alias spellings of configuration keys; non-trivial = at least one filter; distinct = distinct request lines",
+    "trusted_base": TB_COMMON + ["regex and uuid crates (verdicts recorded and handed to the model)", "serde configuration deserialisation"],
+    "assumptions": ["metadata keys are unique per target (HashMap)"],
+}
 
 # properties not claimed yet (kept current; the reason is the honest status)
 NOT_YET = {f"C{i:02d}": "check not built yet in this round (planned per DESIGN.md §9); no claim is made until its check runs green" for i in range(1, 21)}
